@@ -3,6 +3,8 @@ C04 — exact accounting: no ghost keys, no leaked placeholders.
 -/
 import Lockable.Proofs.Frame
 import Lockable.Proofs.Closed
+import Lockable.Proofs.Stream
+import Lockable.Proofs.Usable
 namespace Lockable
 
 /-- some live handle (guard, pending acquisition, failed try before its clean-up, unpolled stream item) refers to key `k` -/
@@ -77,5 +79,23 @@ example :
     let acts := [Act.lookup 1 7, .lookup 2 7, .tryKey 2, .stamp 1, .release 1]
     (run (State.init .hashMap) acts).order = [7] ∧
     (run (State.init .hashMap) (acts ++ [.cleanupFailed 2])).order = [] := by decide
+
+/-- **A failed `try_lock` leaves the accounting exactly as it was** — public-call level, every reachable API state: after a plain
+`try_lock` call that returned no guard, `num_entries_or_locked` is the same number, `keys_with_entries_or_locked` the same set of keys
+(in an lru cache the requested key has moved to the most-recent end, nothing else), the map has the same entries with the same
+mutex state, and no handle is left behind — no ghost key, no leaked placeholder from the attempt. -/
+theorem C04_failed_try_leaves_counts (kind : Kind) (cs : List Call) (h k h0 : Nat) :
+    let a := cs.foldl (fun a c => (a.exec c).1) (Api.init kind)
+    a.s.hs h = none → (a.exec (.lock .try h k .none h0)).2.res.isGuard = false →
+    let a' := (a.exec (.lock .try h k .none h0)).1
+    a'.s.order.length = a.s.order.length ∧ (∀ x, x ∈ a'.s.order ↔ x ∈ a.s.order) ∧ a'.s.ent = a.s.ent ∧ a'.s.hs = a.s.hs := by
+  intro a hf hfail
+  exact lock_try_failed_counts a (ainv_execs cs _ (ainv_init kind)).inv h k h0 hf hfail
+
+/-- non-vacuity: lru cache with keys 1 (held) and 2; a try on key 1 fails -/
+example :
+    let a := ((((Api.init .lru).exec (.lock .wait 1 1 .none 100)).1.exec (.op 1 (.insert 10))).1.exec (.lock .wait 2 2 .none 100)).1
+    a.s.hs 3 = none ∧ (a.exec (.lock .try 3 1 .none 100)).2.res.isGuard = false ∧ a.s.order = [1, 2] ∧
+    (a.exec (.lock .try 3 1 .none 100)).1.s.order = [2, 1] := by decide
 
 end Lockable
